@@ -11,6 +11,15 @@ inline void set_global_tbb_concurrency(const std::size_t n) {
 }
 template<class G> double mcb_sva_signed_tbb(const G &g) { return (double) g; }
 }
+// R20f: the previous control is released (leaked, still in force), not destroyed
+#include <memory>
+namespace parmcb {
+inline void set_global_tbb_concurrency(const std::size_t n, int /*leaky overload*/) {
+    static std::unique_ptr<oneapi::tbb::global_control> global_limit;
+    global_limit.release();
+    global_limit.reset(new oneapi::tbb::global_control(oneapi::tbb::global_control::max_allowed_parallelism, n));
+}
+}
 namespace po = boost::program_options;
 int main(int argc, char *argv[]) {
     po::variables_map vm;
